@@ -6,7 +6,7 @@ Token grammar for term lists (shared by the C02/C04/C05/C16 drivers)
 ```
 terms   := <k> term^k
 term    := "I" | marg | "T" <k> <by|-1> marg^k
-marg    := "L" <feat> lamspec
+marg    := "L" <feat> <e0> <e1> lamspec
          | "S" <feat> <n> <p> <cyclic:0|1> <by|-1> <e0> <e1> lamspec conspec
          | "F" <feat> <ncat> <dummy:0|1> <e0> <e1> lamspec
 lamspec := <m> (<penalty-kind> <lam>)^m      penalty-kind ∈ auto derivative l2 none periodic
@@ -71,10 +71,12 @@ def pLamItem : P (PenKind × Rat) := fun r => do
 def pMarg : P (Marg Rat)
   | "L" :: r => do
       let (f, r) ← pNat r
+      let (e0, r) ← pRat r
+      let (e1, r) ← pRat r
       let (ls, r) ← pCounted pLamItem r
       some ({ kind := .linear, feature := f, nSplines := 1, order := 0, cyclic := false, byVar := none,
               dummy := false, lam := ls.map (·.2), penalties := ls.map (·.1), constraints := [.none],
-              e0 := 0, e1 := 0 }, r)
+              e0 := e0, e1 := e1 }, r)
   | "S" :: r => do
       let (f, r) ← pNat r
       let (n, r) ← pNat r
